@@ -186,10 +186,82 @@ def c01_accepted_case(key, vals, i):
     return None if ok else ('%s=%r (%s)' % (a, exp, type(exp).__name__), '%r (%s)' % (got, type(got).__name__))
 
 
+def eq_nan(a, b):
+    """== on copies of a value, except that NaN equals NaN"""
+    if type(a) is not type(b):
+        return False
+    if isinstance(a, float):
+        return (a != a and b != b) or a == b
+    if isinstance(a, list):
+        return len(a) == len(b) and all(eq_nan(x, y) for x, y in zip(a, b))
+    if isinstance(a, dict):
+        return list(a) == list(b) and all(eq_nan(a[k], b[k]) for k in a)
+    if isinstance(a, D):
+        return (a.is_nan() and b.is_nan()) or a == b
+    return a == b
+
+
+@replayer
+def c01_origin_case(key, vals):
+    """however the frame object was made - constructor, attribute assignment, copy, deep copy, pickle (every protocol),
+    a decoded frame - it encodes to the same bytes and shows the same attribute values"""
+    import pickle
+    cls = commands.INDEX_MAPPING[key]
+    base_obj = real.make_method(cls, vals)
+    k, want = catching(frame.marshal, base_obj, 7)
+    if k != 'ok':
+        return None
+    makers = [('copy.copy', lambda: copy.copy(base_obj)), ('copy.deepcopy', lambda: copy.deepcopy(base_obj)),
+              ('decoded', lambda: frame.unmarshal(want)[2])]
+    makers += [('pickle protocol %d' % pr, (lambda pr=pr: pickle.loads(pickle.dumps(base_obj, pr)))) for pr in range(2, pickle.HIGHEST_PROTOCOL + 1)]
+    k0, o0 = catching(lambda: cls(*vals))
+    if k0 == 'ok':
+        makers.append(('positional constructor', lambda: cls(*vals)))
+        makers.append(('keyword constructor', lambda: cls(**dict(zip(cls.__slots__, vals)))))
+    for label, mk in makers:
+        km, o = catching(mk)
+        if km != 'ok':
+            if label.startswith('pickle') or label.startswith('copy'):
+                continue            # not every frame need be copyable; one that IS copied must be faithful
+            return ('%s works' % label, repr(o))
+        kb, b = catching(frame.marshal, o, 7)
+        if kb != 'ok' or b != want:
+            return ('%s: encodes to %s' % (label, want.hex()[:160]), b.hex()[:160] if kb == 'ok' else repr(b))
+        for a, v in zip(cls.__slots__, vals):
+            kg, got = catching(getattr, o, a)
+            same_ = got is v or got == v or (v is None and got == {})
+            if not same_:
+                try:
+                    same_ = eq_nan(v, got)      # NaN equals NaN here
+                except Exception:  # noqa
+                    same_ = False
+            if label == 'decoded' and not same_:
+                same_ = norm_eq({} if v is None and cls.amqp_type(a) == 'table' else v, got)     # the documented normalisation of C03
+            if kg != 'ok' or not same_:
+                return ('%s: attribute %s = %r' % (label, a, v), repr(got))
+    return None
+
+
 def oracle_c01(ctx):
     res = Result('c01.roundtrip')
     g = ctx.gen
     metas = ctx.generated['catalogue']['methods']
+    for meta in metas:
+        cls = commands.INDEX_MAPPING.get(meta['key'])
+        if cls is None:
+            continue
+        for _ in range(3 if ctx.thorough else 1):
+            vals = lanes.method_vals_ok(ctx, cls, meta)
+            for i, a in enumerate(meta['args']):     # distinct, non-default values so that a lost attribute shows
+                if a['ty'] == 'bit' and not any(ru.get('attr') == a['name'] for ru in meta['rules']):
+                    vals[i] = True
+                elif a['ty'] in ('octet', 'short', 'long', 'longlong') and not any(ru.get('attr') == a['name'] for ru in meta['rules']):
+                    vals[i] = 7 + i
+            res.case('origin ' + pyrepr((meta['key'], vals)), tag='object origin', trivial=not vals)
+            k, bad = catching(c01_origin_case, meta['key'], vals)
+            if k != 'ok' or bad:
+                res.violation('%s: a copied / pickled / decoded frame differs from the original' % meta['name'],
+                              {'fn': 'c01_origin_case', 'args': pyrepr((meta['key'], vals))}, bad[0] if k == 'ok' else 'oracle runs', bad[1] if k == 'ok' else repr(bad))
     for meta in metas:
         cls = commands.INDEX_MAPPING.get(meta['key'])
         if cls is None:
@@ -283,11 +355,53 @@ def c02_case(size, vals, ch, junk):
     return None
 
 
+@replayer
+def c02_edit_case(vals, i):
+    """a content header that came from the decoder, with ONE property set back to None (or changed): it encodes exactly
+    like a header built from the remaining values, and that decodes again"""
+    k, b = catching(frame.marshal, real.make_header(9, vals), 1)
+    if k != 'ok':
+        return None
+    k1, r = catching(frame.unmarshal, b)
+    if k1 != 'ok':
+        return None
+    h = r[2]
+    names = list(commands.Basic.Properties.__slots__)
+    for how in ('none', 'changed', 'deleted-and-reset'):
+        h2 = copy.deepcopy(h) if how != 'none' else h
+        new = list(vals)
+        if how == 'changed':
+            new[i] = {'shortstr': 'zz', 'octet': 2, 'table': {'z': 1}, 'timestamp': datetime.datetime(2001, 2, 3, tzinfo=UTC)}[commands.Basic.Properties.amqp_type(names[i])]
+            if names[i] == 'cluster_id':
+                new[i] = ''
+        else:
+            new[i] = '' if names[i] == 'cluster_id' else None
+        setattr(h2.properties, names[i], new[i])
+        kx, bx = catching(frame.marshal, h2, 1)
+        kw, bw = catching(frame.marshal, real.make_header(9, new), 1)
+        if kx != kw or (kx == 'ok' and bx != bw):
+            return ('%s %s: %s' % (names[i], how, bw.hex()[:200] if kw == 'ok' else kw), bx.hex()[:200] if kx == 'ok' else repr(bx))
+        if kx == 'ok':
+            kd, rd = catching(frame.unmarshal, bx)
+            if kd != 'ok' or rd[0] != len(bx):
+                return ('%s %s: the edited header decodes' % (names[i], how), repr(rd))
+    return None
+
+
 def oracle_c02(ctx):
     res = Result('c02.roundtrip')
     g = ctx.gen
     nprops = len(commands.Basic.Properties.__slots__)
     draws = 4 if ctx.thorough else 1
+    for _ in range(120 if ctx.thorough else 30):
+        vals = lanes.props_vals(ctx, g.r.getrandbits(nprops - 1) | g.r.getrandbits(nprops - 1))
+        set_ = [i for i, v in enumerate(vals) if v is not None and v != '']
+        for i in (set_ if ctx.thorough else g.r.sample(set_, min(3, len(set_)))):
+            res.case('edit %s %d' % (pyrepr(vals), i), tag='decoded then edited')
+            k, bad = catching(c02_edit_case, vals, i)
+            if k != 'ok' or bad:
+                res.violation('a decoded content header, one property edited, encodes differently from a fresh one',
+                              {'fn': 'c02_edit_case', 'args': pyrepr((vals, i))}, bad[0] if k == 'ok' else 'oracle runs', bad[1] if k == 'ok' else repr(bad))
     for mask in range(1 << (nprops - 1)):
         for _ in range(draws):
             vals = lanes.props_vals(ctx, mask)
@@ -1921,6 +2035,35 @@ def c12_shared_case(v):
     return None
 
 
+def c12_equal_pair_case(a, b):
+    """two values with equal contents (built differently): whichever of them the encoder accepts must give the same bytes"""
+    ka, ba = catching(encode.encode_table_value, a)
+    kb, bb = catching(encode.encode_table_value, b)
+    if ka == 'ok' and kb == 'ok' and ba != bb:
+        return (ba.hex()[:200], bb.hex()[:200])
+    if isinstance(a, dict) or hasattr(a, 'items'):
+        ka, ba = catching(encode.field_table, a)
+        kb, bb = catching(encode.field_table, b)
+        if ka == 'ok' and kb == 'ok' and ba != bb:
+            return ('field_table: ' + ba.hex()[:200], bb.hex()[:200])
+    return None
+
+
+@replayer
+def c12_set_case(o1, o2, kind):
+    kind = {'set': set, 'frozenset': frozenset}[kind]
+    def build(order):
+        s_ = set()
+        for x in order:
+            s_.add(x)
+        return kind(s_) if kind is not set else s_
+    for wrap in (lambda x: x, lambda x: {'k': x}, lambda x: [x], lambda x: {'a': {'b': x}}):
+        bad = c12_equal_pair_case(wrap(build(o1)), wrap(build(o2)))
+        if bad:
+            return bad
+    return None
+
+
 @replayer
 def c12_decoded_case(t, order, how):
     """encode `t` with its entries in the wire order `order` (a foreign peer need not sort), decode it, edit the decoded
@@ -2018,6 +2161,31 @@ def oracle_c12(ctx):
         if k != 'ok' or bad:
             res.violation('a value with a shared sub-object encodes differently from an equal value without sharing',
                           {'fn': 'c12_shared_case', 'args': pyrepr((v,))}, bad[0] if k == 'ok' else 'oracle runs', bad[1] if k == 'ok' else repr(bad))
+    # unordered or otherwise unusual containers, if the encoder takes them at all: equal contents, same bytes
+    def set_from(order, kind=set):
+        s_ = set()
+        for x in order:
+            s_.add(x)
+        return kind(s_) if kind is not set else s_
+    pairs_ = [([0, 8], [8, 0]), ([0, 8, 16, 24], [24, 16, 8, 0]), (['a', 'b', 'c', 'd'], ['d', 'c', 'b', 'a']), ([1, 9, 17, 'x'], ['x', 17, 9, 1]),
+              (list(range(0, 64, 8)), list(range(56, -8, -8))), ([-1, -2], [-2, -1])]
+    for o1, o2 in pairs_:
+        for kind in (set, frozenset):
+            for wrap in (lambda x: x, lambda x: {'k': x}, lambda x: [x], lambda x: {'a': {'b': x}}):
+                res.case('sets %r %s' % (o1, kind.__name__), tag='unordered containers')
+                k, bad = catching(c12_equal_pair_case, wrap(set_from(o1, kind)), wrap(set_from(o2, kind)))
+                if k != 'ok' or bad:
+                    res.violation('equal %ss built in different orders encode differently' % kind.__name__,
+                                  {'fn': 'c12_set_case', 'args': pyrepr((o1, o2, kind.__name__))}, bad[0] if k == 'ok' else 'oracle runs', bad[1] if k == 'ok' else repr(bad))
+    import collections as _col
+    for d1, d2 in [(_col.OrderedDict([('b', 1), ('a', 2)]), _col.OrderedDict([('a', 2), ('b', 1)])),
+                   (_col.defaultdict(int, {'b': 1, 'a': 2}), {'a': 2, 'b': 1}), (_col.ChainMap({'b': 1}, {'a': 2}), {'a': 2, 'b': 1}),
+                   (_col.Counter('bbaac'), {'a': 2, 'b': 2, 'c': 1}), ((1, 2, 3), [1, 2, 3]), (_col.deque([1, 2]), [1, 2]), (range(3), [0, 1, 2])]:
+        res.case('mapping kinds %s' % type(d1).__name__, tag='unordered containers')
+        k, bad = catching(c12_equal_pair_case, d1, d2)
+        if k != 'ok' or bad:
+            res.violation('a %s and an equal plain container encode differently' % type(d1).__name__, {'fn': 'none', 'args': '()'},
+                          bad[0] if k == 'ok' else 'oracle runs', bad[1] if k == 'ok' else repr(bad))
     # tables that come out of the DECODER (sorted or unsorted on the wire), edited the ways a dict can be edited
     for i in range(600 if ctx.thorough else 120):
         t = g.table_ok(depth=g.r.choice([1, 2]), breadth=g.r.choice([2, 3, 5]))
@@ -2074,14 +2242,33 @@ def typed_values_for(c, g):
         return [False, True, None]
     if kind == 'maxlen':
         n = c[2]
-        return ['', None, 'a' * (n - 1), 'a' * n, 'a' * (n + 1), 'a' * 255, 'é' * n, 'é' * (n + 1)]
+        out = ['', None, 'a' * (n - 1), 'a' * n, 'a' * (n + 1), 'a' * 255, 'é' * n, 'é' * (n + 1)]
+        # strings some decoding / unescaping / normalising step would SHORTEN: the limit is on the characters as given
+        for tok in ('%2F', '%41', '%%', '&amp;', '\\x41', '\\u0041', 'e\u0301', '\ufb01', '\u212b', '++', '  ', '\t', '=?utf-8?q?a?=', '\\\\', '//', './'):
+            for total in (n, n + 1):
+                for where in ('front', 'back', 'all'):
+                    if where == 'all':
+                        sx_ = (tok * (total // len(tok) + 1))[:total]
+                    elif where == 'front':
+                        sx_ = tok + 'v' * (total - len(tok))
+                    else:
+                        sx_ = 'v' * (total - len(tok)) + tok
+                    if len(sx_) == total:
+                        out.append(sx_)
+        return out
     if kind == 'chars':
         positional = []
         for n in (2, 127, 128, 129, 200, 255, 256):
             for pos in (0, 1, n // 2, 126, 127, 128, n - 2, n - 1):
                 if 0 <= pos < n:
                     positional.append('a' * pos + '|' + 'a' * (n - pos - 1))
-        return positional + ['', None, spec_tables.NAME_CHARS[:60], spec_tables.NAME_CHARS[60:], 'a\n', 'a!', 'é', '\x00', 'a' * 50 + '*'] + \
+        meaningful = []
+        for nm in G.WELL_KNOWN_NAMES + [m for m in G.MINED_STRINGS if m and len(m) < 60 and all(ch in spec_tables.NAME_CHARS for ch in m)][:30]:
+            for badc in ('+', '=', '!', '*', '\n', '%', 'é', '\x00', '$', '?'):
+                meaningful += [nm + badc, nm + '.' + badc, nm + '.abc' + badc, nm + badc + 'abc', badc + nm]
+        if len(meaningful) > 120:
+            meaningful = g.r.sample(meaningful, 120) + ['amq.rabbitmq.reply-to.abc=', 'amq.rabbitmq.reply-to.a+b', 'amq.gen-a+b=']
+        return positional + meaningful + ['', None, spec_tables.NAME_CHARS[:60], spec_tables.NAME_CHARS[60:], 'a\n', 'a!', 'é', '\x00', 'a' * 50 + '*'] + \
             [chr(g.codepoint()) for _ in range(12)] + ['ab' + chr(g.codepoint()) + 'c' for _ in range(6)]
     if kind == 'oneof':
         return list(c[2]) + [None, 0, 3, 255, 127]
@@ -2778,6 +2965,20 @@ def c19_case(key, vals):
             nested = list(itertools.islice(((a[0], b[0]) for a in o for b in o), len(names) ** 2 + 2))
             if nested != [(a, b) for a in names for b in names]:
                 return ('a nested loop over one frame visits all %d pairs' % len(names) ** 2, nested[:6])
+            if len(names) >= 2:
+                # "paired with the CURRENT attribute values": an attribute assigned while an iteration is under way
+                # shows its new value when the iteration reaches it
+                it2 = iter(o)
+                next(it2)
+                old_last = getattr(o, names[-1])
+                marker = ('changed-during-iteration', id(o))
+                try:
+                    setattr(o, names[-1], marker)
+                    tail = list(it2)
+                finally:
+                    setattr(o, names[-1], old_last)
+                if not tail or tail[-1][0] != names[-1] or tail[-1][1] is not marker:
+                    return ('the pair for %s carries the value assigned during the iteration' % names[-1], repr(tail[-1:] if tail else tail))
             it = iter(o)
             first = [next(it)[0]] if names else []
             whole = [k for k, _ in o]
